@@ -1,6 +1,8 @@
 //! Classification of C15 failures by mechanism, computed from the failing case itself
-//! (tree before, tree after `deduplicate_namespaces`, tree after a second call), so that a known
-//! finding never hides a different defect behind a broad signature.
+//! (tree before, tree after `deduplicate_namespaces`, tree after a second call), so that one
+//! finding never hides a different defect behind a broad signature.  Since /repo d434a2d (passes
+//! until nothing is redundant; C15_serialises, C15_idem) NO class is known: every class the oracle
+//! files is a new finding.  The class names describe the mechanisms of the code before d434a2d.
 //!
 //! A name is *lost* when it could be written before the call and cannot after it.  For each lost
 //! name: which removed declaration it would have used, under which prefix(es) the namespace was
